@@ -24,7 +24,8 @@
       f_seekErr    a suffix range longer than the file is a seek error (500) instead of the whole file
                                                                                            (finding C30-4)
       f_suffix0    a suffix range that selects zero bytes ([bytes=-0], any suffix of an empty file) becomes the
-                   range (size, 0): 206 with Content-Range "bytes size-(size-1)/size"     (finding C30-5)
+                   range (size, 0): 206 with Content-Range "bytes size-(size-1)/size"     (finding C30-5);
+                   off: parseRange counts it as not overlapping and parseRangeWithoutLength skips [-0]
     No proofs in this file. *)
 From Coq Require Import List ZArith Bool String Ascii.
 From V Require Import lib.Verdict.
@@ -118,7 +119,7 @@ Arguments PSkip {A}. Arguments PErr {A}. Arguments PNoOv {A}. Arguments POk {A} 
 (** ---------- parseRangeWithoutLength (handler_defaults.go) ---------- *)
 Record brange := { b_from : Z; b_to : option Z }.      (* gateway.ByteRange *)
 
-Definition prwl_piece (p : str) : pres brange :=
+Definition prwl_piece (f_suffix0 : bool) (p : str) : pres brange :=
   match trim p with
   | [] => PSkip
   | ra =>
@@ -135,7 +136,10 @@ Definition prwl_piece (p : str) : pres brange :=
                   if c =? dash then PErr else
                   match parse_int en with
                   | None => PErr
-                  | Some i => if i <? 0 then PErr else POk {| b_from := - i; b_to := None |}
+                  | Some i =>
+                      if i <? 0 then PErr
+                      else if negb f_suffix0 && (i =? 0) then PSkip      (* demanded: selects nothing *)
+                      else POk {| b_from := - i; b_to := None |}
                   end
               end
           | _ :: _ =>
@@ -155,25 +159,25 @@ Definition prwl_piece (p : str) : pres brange :=
       end
   end.
 
-Fixpoint prwl_loop (ps : list str) : option (list brange) :=
+Fixpoint prwl_loop (f_suffix0 : bool) (ps : list str) : option (list brange) :=
   match ps with
   | [] => Some []
   | p :: r =>
-      match prwl_piece p with
-      | PSkip | PNoOv => prwl_loop r
+      match prwl_piece f_suffix0 p with
+      | PSkip | PNoOv => prwl_loop f_suffix0 r
       | PErr => None
-      | POk b => match prwl_loop r with Some l => Some (b :: l) | None => None end
+      | POk b => match prwl_loop f_suffix0 r with Some l => Some (b :: l) | None => None end
       end
   end.
 
 (* None = error "invalid range" *)
-Definition prwl (s : str) : option (list brange) :=
+Definition prwl (f_suffix0 : bool) (s : str) : option (list brange) :=
   match s with
   | [] => Some []
   | _ :: _ =>
       match strip_prefix bytes_eq s with
       | None => None
-      | Some rest => prwl_loop (split_on comma rest)
+      | Some rest => prwl_loop f_suffix0 (split_on comma rest)
       end
   end.
 
@@ -338,7 +342,7 @@ Definition model (fl : flags) (q : req) : resp :=
   match q_meth q with
   | HEAD => serve fl q 0
   | GET =>
-      match prwl (q_range q) with
+      match prwl (f_suffix0 fl) (q_range q) with
       | None => err_resp 400 CRNone
       | Some bs =>
           match seek_pos fl (q_size q) (hd_error bs) with
